@@ -104,6 +104,49 @@ func main() {
 			}
 			fmt.Printf("rule %s: %d obligations %v (floor %d)\n", name, len(res.Obligations), cnt, r.Min)
 		}
+	case "floors":
+		// dev-time helper (never used by checks): instance count of every rule against its floor
+		p, err := core.Load("amd64", true)
+		if err != nil {
+			fmt.Fprintln(os.Stderr, err)
+			os.Exit(2)
+		}
+		var names []string
+		for n := range core.Registry {
+			names = append(names, n)
+		}
+		sort.Strings(names)
+		for _, n := range names {
+			r := core.Registry[n]
+			res := r.Run(p)
+			fmt.Printf("%-16s n=%-4d floor=%d\n", n, len(res.Obligations), r.Min)
+		}
+	case "anchors":
+		// dev-time helper (never used by checks): print the anchor table (rule<TAB>function hosting an instance) for the
+		// tree under VSTATIC_REPO; the committed /verif/anchors.txt is this output on the reference tree, read through
+		p, err := core.Load("amd64", true)
+		if err != nil {
+			fmt.Fprintln(os.Stderr, err)
+			os.Exit(2)
+		}
+		var names []string
+		for n := range core.Registry {
+			names = append(names, n)
+		}
+		sort.Strings(names)
+		fmt.Println("# rule<TAB>function in which the rule found an instance on the reference tree; written by `vstatic anchors`, see internal/core/anchors.go")
+		for _, n := range names {
+			r := core.Registry[n]
+			res := r.Run(p)
+			// targeted rules with a tight floor only: a rule that enumerates every loop or write of the module has a
+			// loose floor already, and a function that loses its last loop has lost nothing the rule guards
+			if len(res.Obligations) > 30 || r.Min*5 < len(res.Obligations)*3 {
+				continue
+			}
+			for _, h := range core.HostFuncs(p, res.Obligations) {
+				fmt.Printf("%s\t%s\n", n, h)
+			}
+		}
 	case "findings-template":
 		// dev-time helper (never used by checks): print finding: lines for the currently violated obligations of a rule
 		fs := flag.NewFlagSet("findings-template", flag.ExitOnError)
